@@ -24,6 +24,7 @@ import re
 REF_FILE = os.path.join(os.path.dirname(__file__), "private_ref.json")
 THRESHOLD = 0.6
 MARGIN = 0.08
+MOVED_THRESHOLD = 0.8
 
 
 def _is_accessor(n):
@@ -143,6 +144,31 @@ def detect(trees, ref=None):
     for new, olds in votes.items():
         if len(olds) == 1:
             old = next(iter(olds))
+            mapping[new] = old
+    # helpers that moved to another container (method <-> module function, another module): reference names that occur nowhere
+    # in the current tree are matched against the unknown private functions of the whole package, with a higher threshold
+    cur_all = {}
+    for cont, cfs in cur.items():
+        for n, f in cfs.items():
+            cur_all.setdefault(n, []).append((cont, f))
+    gone = {}
+    for cont, rfs in ref.items():
+        for old, text in rfs.items():
+            if old not in cur_names and old not in mapping.values():
+                gone.setdefault(old, []).append(text)
+    unknown = {n: v for n, v in cur_all.items() if n not in ref_names and n not in mapping}
+    if gone and unknown:
+        utexts = {n: [masked_text(f, cur_names) for (_c, f) in v] for n, v in unknown.items()}
+        cand = []
+        for old, texts in gone.items():
+            row = sorted(((max(_sim(t_, u_) for t_ in texts for u_ in us), new) for new, us in utexts.items()), reverse=True)
+            if row and row[0][0] >= MOVED_THRESHOLD and (len(row) == 1 or row[0][0] - row[1][0] >= MARGIN):
+                cand.append((row[0][0], old, row[0][1]))
+        taken = set()
+        for s_, old, new in sorted(cand, reverse=True):
+            if new in taken or new in mapping:
+                continue
+            taken.add(new)
             mapping[new] = old
     # one reference name is claimed by one current name only, and must not be in use for anything else in the current tree
     inv = {}
